@@ -7,6 +7,8 @@ CONSTANTS
     DecrAfterSilence = TRUE
     UseSem = TRUE
     NotifyArm = TRUE
+    AwaitBodyOnTimeout = TRUE
+    Timeouts = TRUE
     BroadcastAll = TRUE
 SPECIFICATION TraceSpec
 CONSTRAINT HighWater
